@@ -1,9 +1,11 @@
 """
 C06  Token stream is a faithful, gap-free, correctly located segmentation.
 
-proof   Props/C06: tokens_partition_input, positions_are_counted_partial (+ the negation of the full statement on
-        `a<U+2028>b`), punctuators_longest_first / punctuator_maximal_munch, id_keyword_iff, lexer_terminates, all about
-        Model.Lexer, whose rule order / classes / tables are regenerated from /repo (gen: tables, lexdata).
+proof   Props/C06: tokens_partition_input, tokens_strictly_ordered, ignore_set_is_es5_whitespace, positions_are_counted
+        (full strength), punctuators_longest_first / punctuator_maximal_munch, id_keyword_iff / keyword_exact,
+        lexer_terminates; Props/C12lex: lexer_no_internal, token_no_internal — all about Model.Lexer, whose rule
+        order / ignore strings / keyword table / punctuator spellings / character classes are regenerated from /repo
+        (gen: tables, lexdata).
 tie S1  real `Lexer(with_comments=…, yield_comments=…)` iteration vs `drv_lex lex`: the token lists (type, value,
         lexpos, lineno, colno, hidden comments) and the exception (class + exact message; internal errors by class).
 tie S1b scripted sessions on one lexer object (token / auto_semi / backtracked_token / lookup_colno as the parser
@@ -21,7 +23,8 @@ import genjs
 import proto
 import shrink
 
-SPEC = dict(gen=['tables', 'lexdata'], props=['CalmVerif.Props.C06'], drivers=['drv_lex'], audit='Audit/C06.lean')
+SPEC = dict(gen=['tables', 'lexdata'], props=['CalmVerif.Props.C06', 'CalmVerif.Props.C12lex'], drivers=['drv_lex'],
+            audit='Audit/C06.lean')
 
 # ---------------------------------------------------------------------------------------------------------------
 # ES5.1 definitions used by the judge (ECMA-262 5.1 §7.2, §7.3, §7.4, §7.6.1, §7.7) — written from the standard
